@@ -32,6 +32,8 @@ violation ids (stable; `<clause>[.<circumstance>]`)
     density.factor                   solid component densities != old / fraction (prescribed changes)
     density.fluid-changed            fluid densities changed by a prescribed change
     volume.stale                     component volume != area x block height after the change
+    target-mass.linked-dimension     (temperature fields) the target's mass changed and its 2-D thermal expansion alone (material density
+                                     factor x area ratio) does not conserve it - a radial dimension linked to another component
     target-mass[.target-offset]      mass of a block's target component not conserved below the top dummy block (1e-10);
                                      circumstance: the target component does not start at the bottom of its block after the change
                                      (the component it is linked to below is not that block's target and ended elsewhere)
@@ -78,14 +80,14 @@ B = Bounded(
     "vectors {uniform, per block, per component, fuel only, identity, subset of components, +-30%}, temperature fields {isothermal, "
     "linear gradient, random} and `inverse of the previous op`); all clauses evaluated after every op; distinct = distinct descriptor; "
     "non-trivial = at least one component fraction != 1",
-    bound="quick: armi's 4 axial-expansion test assemblies + 6 designs of the detailedAxialExpansion reactor + 40 generated assemblies "
-    "(1-7 blocks + dummy, heights 3-60 cm, 0-2 missing components, 5 materials, manual targets) x ~6 sequences of <= 4 ops (~330 cases, "
-    "~1000 changes); 40 invalid-input cases. thorough: 400 generated assemblies x 8 sequences (~3500 cases). Fractions 0.7-1.3, "
-    "temperatures 25-700 C; hex pin assemblies only.",
+    bound="quick: armi's 4 axial-expansion test assemblies + 6 designs of the detailedAxialExpansion reactor + 150 generated assemblies "
+    "(1-7 blocks + dummy, heights 3-60 cm, 0-1 missing component, thinner/annular/fewer pins, 5 materials, manual targets) x 6 sequences of "
+    "<= 4 ops (~960 cases, ~3300 changes); 60 invalid-input cases. thorough: 2000 generated assemblies x 8 sequences (~16000 cases). "
+    "Fractions 0.7-1.3, temperatures 25-700 C; hex pin assemblies with a top dummy block only.",
 )
 counts = {}
 B.extra["violation_counts"] = counts
-for k in ("refused_negative_height", "refused_setup", "refused_thermal_grid", "skipped_inverse", "changes", "target_offset_seen", "uniform_blocks_checked", "inverse_checked"):
+for k in ("refused_negative_height", "refused_setup", "refused_thermal_grid", "skipped_inverse", "changes", "target_offset_seen", "uniform_blocks_checked", "inverse_checked", "radial_nonconserving_seen"):
     B.extra[k] = 0
 B.extra["op_modes"] = {}
 _seen = set()
@@ -238,7 +240,7 @@ def dll_percent(c, T):
 def snapshot(a):
     s = {"ztop": [b.p.ztop for b in a], "zbottom": [b.p.zbottom for b in a], "height": [b.getHeight() for b in a], "comps": []}
     for b in a:
-        s["comps"].append([{"mass": c.getMass(), "dens": dict(c.getNumberDensities()), "T": c.temperatureInC} for c in b])
+        s["comps"].append([{"mass": c.getMass(), "dens": dict(c.getNumberDensities()), "T": c.temperatureInC, "area": c.getArea()} for c in b])
     return s
 
 
@@ -451,12 +453,21 @@ def check_state(case, a, ch, rec, step):
             if top or not solid(c):
                 continue
             m0, m1 = old["mass"], c.getMass()
+            # a temperature change alone (2-D expansion: density factor of the material x area ratio) may already change the mass per unit
+            # height when a radial dimension is linked to another component; the axial clause is then evaluated on top of that factor
+            radial = 1.0
+            if rec["kind"] == "thermal" and old["area"]:
+                radial = c.material.getThermalExpansionDensityReduction(old["T"], c.temperatureInC) * c.getArea() / old["area"]
             d = det(block=k, component=c.name, g=g[id(c)], mass_before=m0, mass_after=m1, rel=rel(m0, m1), block_zbottom=b.p.zbottom, component_zbottom=c.zbottom,
-                    fractions_in_block=gs)
+                    fractions_in_block=gs, radial_factor=radial)
+            if abs(radial - 1.0) > 1e-11:
+                B.extra["radial_nonconserving_seen"] += 1
+                if c.name == tname:
+                    check(rel(m0, m1) <= 1e-10, "target-mass.linked-dimension", "mass of the block's target component not conserved (its 2-D thermal expansion alone does not conserve it)", case, d)
             if c.name == tname:
-                check(rel(m0, m1) <= 1e-10, "target-mass" + sfx, "mass of the block's target component not conserved", case, d)
+                check(rel(m0 * radial, m1) <= 1e-10, "target-mass" + sfx, "mass of the block's target component not conserved", case, d)
             if uniform:
-                check(rel(m0, m1) <= 1e-10, "uniform-mass" + sfx, "all solids of the block grew by one fraction but the mass of one of them changed", case, d)
+                check(rel(m0 * radial, m1) <= 1e-10, "uniform-mass" + sfx, "all solids of the block grew by one fraction but the mass of one of them changed", case, d)
 
 
 def check_inverse(case, a, ref, rec, step):
@@ -594,13 +605,13 @@ def cases():
     rng = B.rng
     asms = [{"kind": "test", "material": m, "hot": h} for m in ("FakeMat", "HT9") for h in (False, True)]
     asms += [{"kind": "reactor", "type": t} for t in reactor_designs()]
-    asms += [{"kind": "generated", "seed": B.seed * 100000 + s} for s in range(400 if T else 40)]
+    asms += [{"kind": "generated", "seed": B.seed * 100000 + s} for s in range(2000 if T else 150)]
     out = []
     for asm in asms:
         for k in range(8 if T else 6):
             out.append({"part": "sequence", "asm": asm, "targets": rng.randrange(10 ** 6) if (asm["kind"] == "generated" and rng.random() < 0.5) else None,
                         "setFuel": rng.random() < 0.8, "fresh": rng.random() < 0.3, "ops": seq_for(rng, k)})
-    for k in range(200 if T else 40):
+    for k in range(400 if T else 60):
         out.append({"part": "refuse", "asm": asms[k % len(asms)], "bad": ["length", "nonpositive"][k % 2], "seed": rng.randrange(10 ** 6)})
     rng.shuffle(out)
     return out
